@@ -192,6 +192,10 @@ class AquaCropModel:
         Initialise all model variables
         """
 
+        # a (re-)initialised model starts from scratch: the "last step of this call" marker
+        # set by an earlier run_model(process_outputs=True) must not leak into this run
+        self.__steps_are_finished = False
+
         # Initialize ClockStruct object
         self._clock_struct = read_clock_parameters(
             self.sim_start_time, self.sim_end_time, self.off_season
